@@ -17,7 +17,7 @@ TReturn == /\ IsEvent("Return") /\ pc = "done" /\ result \in {"data", "error"}
            /\ Trace[l].result = result
            /\ (result = "data" => Trace[l].bodyOk /\ Trace[l].headersOk)      \* body bytes and the server's headers, unchanged
            /\ (result = "error" => Trace[l].noData)                           \* nil headers and nil body with an error
-           /\ (c.transport \in {"ok", "resetInBody", "shortBody"} /\ c.redirect \notin {"noLocation", "loop"} => Trace[l].requests = hops + 1)
+           /\ (c.transport \in {"ok", "resetInBody", "shortBody", "absurdLength"} /\ c.redirect \notin {"noLocation", "loop"} => Trace[l].requests = hops + 1)
            /\ (c.redirect = "loop" => Trace[l].requests = 10)                  \* http.Get gives up after ten requests
            /\ result' = "returned" /\ UNCHANGED <<c, pc, hops>>
 \* DefaultHTTPSGetter is the retrying getter around the simple one, two minutes / thirty seconds
